@@ -236,6 +236,7 @@ def router_scen(nseq_q, nseq_t, nrace_q, nrace_t):
         out = [{'args': ['router', '--mode', 'seq', '--seed', str(seed + k), '--n', str(ns // 4)]} for k in range(4)]
         out += [{'args': ['router', '--mode', 'race', '--seed', str(seed + 10 + k), '--n', str(nr // 4)]} for k in range(4)]
         out += [{'args': ['router', '--mode', 'burst', '--seed', str(seed + 20 + k), '--n', str(120 if th else 40)]} for k in range(2)]
+        out += [{'args': ['router', '--mode', 'selfwake', '--seed', str(seed + 30), '--n', str(12 if th else 3)]}]
         return out
     return f
 
@@ -258,21 +259,25 @@ ROUTER_COMMON = {
 PROPS['C17'] = dict(ROUTER_COMMON, **{
     'modules': ['IpcModel.Props.C17'],
     'theorems': ['C17.C17_stopped_shutdown', 'C17.C17_stopped_proxy_drop', 'C17.C17_no_panic', 'C17.C17_late', 'C17.C17_idempotent',
-                 'C17.C17_shutdown_sequential', 'Router.run_stopped'],
+                 'C17.C17_shutdown_sequential', 'Router.run_stopped', 'C17.C17_sys_inv', 'C17.C17_returns_stopped', 'C17.C17_stopped_forever',
+                 'C17.C17_no_deadlock', 'C17.C17_wake_channel_bounded', 'RSys.inv_step', 'RSys.no_stuck', 'RSys.winv_step'],
     'scenarios': router_scen(600, 8000, 240, 4000),
     'rule': ('seq: seeded client scripts of 3..14 operations {add_route, send, drop sender, shutdown, drop proxy} on a fresh RouterProxy with recording callbacks and '
              'drop guards, quiescence after every step, per-route logs compared with the model; race: 0..8 routes (one callback may re-enter add_route on the router '
              'thread), traffic thread, 0..2 registering threads, 1..4 concurrent shutdown() callers or a proxy drop, 10 s watchdog, panic hook; '
              'burst: 16..40 routes (each with a message queued before registration) registered back to back on a fresh router while a second thread registers one more at a swept '
              'delay of 0..600 us, then no further registration, 15 ms of silence, one more message per route: every route must see both messages in order within 3 s and drop '
-             'its callback on disconnection; '
+             'its callback on disconnection; selfwake: 2..3 routes with 180..260 queued messages each whose callbacks register a route per message (360..780 registrations made '
+             'on the router thread within one select batch): all callbacks must run and shutdown() must return within 5 s; '
              'non-trivial = traffic plus a stop/closure (seq) / every race and burst case; distinct = distinct script or race configuration+log length'),
     'explanation': ('router thread as a pure event processor: stop theorems (no handler left, drops before the ack, nothing afterwards), no panic under the C06 contract, '
-                    'late routes refused; the closed-system clauses (returns only when stopped, no deadlock) are exercised by the race scenario only'),
+                    'late routes refused; closed system (mutex, threads, re-entrant callbacks) as a small-step model: returns-only-when-stopped and no-stuck-state proved'),
     'level_text': ('Kernel-checked for every router state and event continuation: Shutdown / proxy drop leave no handler, log one drop per handler before the '
-                   'acknowledgement and make every later event a no-op; no panic on contract-respecting streams; routes offered late never reach the router. '
-                   'NOT proved (harness only): shutdown() returns only after the stop and never deadlocks under concurrency and re-entrant callbacks'),
-    'level_note': 'Trusted: Lean kernel, harness; Router::run is hand-modelled (tied by per-route log equality on seeded scripts); mutex/thread interleavings only sampled by the race scenario',
+                   'acknowledgement and make every later event a no-op; no panic on contract-respecting streams; routes offered late never reach the router; and, over all '
+                   'interleavings of the closed system (client threads calling add_route/shutdown concurrently, proxy mutex, message queue, wake-ups, router thread, callbacks '
+                   're-entering add_route): every shutdown() call returns only when the router has stopped and holds no callback, the stop is for good, and no reachable state '
+                   'with an unfinished call is stuck (the pre-fix variant has a reachable deadlock); real routers exercised by seq/race/burst scenarios'),
+    'level_note': 'Trusted: Lean kernel, harness; Router::run and the proxy are hand-modelled (tied by per-route log equality on seeded scripts and by the race scenarios); scheduler fairness assumed',
 })
 PROPS['C07'] = dict(ROUTER_COMMON, **{
     'modules': ['IpcModel.Props.C07'],
